@@ -300,3 +300,26 @@ def _replay_fn(res):
             return str(x)
         return 'func() { %s(%s) }' % (res['fn'], ', '.join(g(x) for x in a))
     return res['fn']
+
+def merge_evidence(prop, parts, tier, seed, t0):
+    """one evidence file for a check made of several run_check sub-runs (different build tags / replay flags)"""
+    evdir = os.path.join(driver.VERIF, 'evidence') if driver.REPO == '/repo' else os.path.join(driver.CACHE, 'evidence_scratch')
+    evs = [json.load(open(os.path.join(evdir, p + '.json'))) for p in parts]
+    cov = {'evaluations': 0, 'distinct_nontrivial': 0, 'states': 0, 'transitions': 0, 'traces_validated_against_impl': 0, 'cases': 0, 'paths': 0, 'assertions_checked': 0, 'solver_s': 0.0}
+    for e in evs:
+        for k in cov:
+            cov[k] += e['coverage'].get(k, 0)
+    cov['rule'] = evs[0]['coverage']['rule']
+    cov['samples'] = sum((e['coverage']['samples'][:3] for e in evs), [])
+    cov['exhaustive'] = all(e['coverage']['exhaustive'] for e in evs)
+    cov['parts'] = {p: {k: e['coverage'][k] for k in ('cases', 'paths', 'assertions_checked', 'solver_queries', 'bounds', 'explanation', 'encoding_source', 'inconclusive') if k in e['coverage']} for p, e in zip(parts, evs)}
+    cov['functions_encoded'] = sorted(set(sum((e['coverage']['functions_encoded'] for e in evs), [])))[:400]
+    cov['trusted_base'] = sorted(set(sum((e['coverage']['trusted_base'] for e in evs), [])))
+    cov['bounds'] = {p: e['coverage']['bounds'] for p, e in zip(parts, evs)}
+    cov['inconclusive'] = sum((e['coverage']['inconclusive'] for e in evs), [])
+    ev = {'property_id': prop, 'tier': tier, 'seed': seed, 'level': 'model_checking', 'coverage': cov,
+          'assumptions': sorted(set(sum((e['assumptions'] for e in evs), []))), 'wall_s': round(time.time() - t0, 2), 'violations': sum(e['violations'] for e in evs)}
+    json.dump(ev, open(os.path.join(evdir, prop + '.json'), 'w'), indent=1, default=str)
+    for p in parts:
+        os.remove(os.path.join(evdir, p + '.json'))
+
